@@ -112,7 +112,12 @@ class Parent(AbstractParent):
             self.parent = parent_obj
 
         self.id = parent_id
-        self.sequence_type = seq_type
+        # "chromosome" and SequenceType.CHROMOSOME are the same constructor-cache key (str enum): store one type,
+        # whichever spelling built the cached object first
+        try:
+            self.sequence_type = SequenceType(seq_type) if seq_type is not None else None
+        except ValueError:
+            self.sequence_type = seq_type
         self._strand = strand
         self.location = location
         self.sequence = sequence
